@@ -70,6 +70,7 @@ type VC struct {
 	boxed     map[types.Object]bool
 	frames    []*Frame
 	siteOrd   map[ast.Node]string // node -> ordinal string per kind
+	siteOrd2  map[ast.Node]string // statements
 	loopPath  map[ast.Stmt]string
 	errs      []string
 	inlineDepth int
@@ -82,6 +83,14 @@ type VC struct {
 	topPanics []*State
 	analyzed  map[ast.Node]bool
 	noKF      bool
+	usedSites map[string]bool
+	heapGoTypes map[string]types.Type
+	mapValArr   map[string]bool
+	epochAlloc  map[string]*Term
+	bgFacts     []*Term // facts about lazily created heap versions (true in every state of this run)
+	topMods   modSet
+	modAll    bool
+	curStmt   ast.Stmt
 	ghostTypes map[string]types.Type
 }
 
@@ -139,6 +148,17 @@ func (vc *VC) oblige(s *State, kind, site, desc string, pos token.Pos, goal *Ter
 		s.assume(goal)
 		return
 	}
+	if goal.Op == "and" && (kind == "ensures" || kind == "invariant-init" || kind == "invariant-step" || kind == "call-requires") {
+		// one obligation per conjunct: smaller queries, precise diagnostics
+		pc := s.pc
+		for i, g := range goal.Args {
+			s.pc = pc
+			vc.oblige(s, kind, fmt.Sprintf("%s.%d", site, i+1), desc, pos, g)
+		}
+		s.pc = pc
+		s.assume(goal)
+		return
+	}
 	name := vc.fn.Key + "#" + kind
 	if site != "" {
 		name += ":" + vc.prefix + site
@@ -164,7 +184,11 @@ func shortKey(k string) string {
 
 // siteName computes a stable ordinal name for an AST node of a given kind within its function.
 func (vc *VC) siteName(kind string, n ast.Node) string {
-	if s, ok := vc.siteOrd[n]; ok {
+	if kind == "stmt" {
+		if s, ok := vc.siteOrd2[n]; ok {
+			return s
+		}
+	} else if s, ok := vc.siteOrd[n]; ok {
 		return s
 	}
 	// compute lazily for the enclosing function body: number all nodes by (kind-agnostic) category
@@ -207,6 +231,14 @@ func (vc *VC) numberSites(body ast.Node, prefix string) {
 			add("return", x)
 		case *ast.AssignStmt:
 			add("assign", x)
+		}
+		if st, ok := n.(ast.Stmt); ok {
+			switch st.(type) {
+			case *ast.BlockStmt, *ast.LabeledStmt:
+			default:
+				counts["stmt"]++
+				vc.siteOrd2[st] = fmt.Sprintf("%sstmt:%d", prefix, counts["stmt"])
+			}
 		}
 		return true
 	})
